@@ -141,8 +141,8 @@ def _compute_point(b):
     return bits.compute_point(b)
 
 
-def _keygen(draw):
-    import curvectx
+def _keygen(draw, from_top=False):
+    """secrets.randbelow(bound) returns `draw`, or bound-1-draw when from_top (the largest values the source can return)"""
     import bits.keys
     seen = []
     import secrets
@@ -150,7 +150,7 @@ def _keygen(draw):
 
     def fake(n):
         seen.append(n)
-        return draw
+        return n - 1 - draw if from_top else draw
     secrets.randbelow = fake
     try:
         k = bits.keys.key()
@@ -184,7 +184,8 @@ def model_call(c):
     if op == "compute_point":
         return "c03_compute_point", [P, 0, N, (GX, GY), a[0]]
     if op == "keygen":
-        return "c03_key_of_draw", [a[0]]
+        # the correct bound of the random source is n-1: its largest value is n-2
+        return "c03_key_of_draw", [(N - 2 - a[0]) if (len(a) > 1 and a[1]) else a[0]]
     raise KeyError(op)
 
 
@@ -261,13 +262,13 @@ def prop_oracle(c):
         want = ref_mul(CURVES["secp"], int.from_bytes(b, "big"), (GX, GY))
         return None if _pt(v) == want else "public key is not k*G"
     if op == "keygen":
-        k, seen = _keygen(a[0])
+        k, seen = _keygen(*a)
         bound = seen[0] if seen else None
         if bound is None or not (0 <= a[0] < bound):
             return None          # the scripted draw is outside what randbelow(bound) can return
         v = int.from_bytes(k, "big")
         if len(k) != 32 or not (1 <= v < N):
-            return "generated key %d is not in [1, n-1] for random draw %d of randbelow(%d)" % (v, a[0], bound)
+            return "generated key %d is not in [1, n-1] for a draw the random source randbelow(%d) can return" % (v, bound)
         return None
     return None
 
@@ -346,6 +347,8 @@ def gen_cases(rng, tier):
     # --- key generation: every boundary of the random source
     for d in [0, 1, 2, N - 3, N - 2] + [rng.randrange(0, N - 1) for _ in range(10)]:
         out.append(case("keygen-draw", "keygen", d))
+    for d in [0, 1, 2]:          # the largest values the source can return, whatever bound the code passes
+        out.append(case("keygen-draw-top", "keygen", d, True))
     return out
 
 
